@@ -114,7 +114,8 @@ class Model:
         if self.kind != 'M':
             self.subs = {}
         elif changed and detach:
-            self.subs = {q: 'stale' for q in self.subs}
+            # MultiStream.phases setter re-links the sub-streams of surviving phases and drops the others
+            self.subs = {q: v for q, v in self.subs.items() if q in labels}
         self.kind = 'M'; self.labels = list(labels); self.rows = [np.array(r, float) for r in rows]
 
 
@@ -595,5 +596,5 @@ def prop_history(ch, ctx):
 
 
 PROPS = {
-    'history': (prop_history, 8000, 150000),
+    'history': (prop_history, 12000, 150000),
 }
